@@ -503,6 +503,7 @@ def ftp_option_classes():
     c['fo_new_directory_file_url'] = dict(argv=['-P', 'new/dir'], run_as='ftpparent', norec=True, only_file=True)
     c['fo_no_remove_listing'] = dict(argv=['--no-remove-listing'])
     c['fo_no_glob'] = dict(argv=['--no-glob'])
+    c['fo_save_headers'] = dict(argv=['--save-headers'])     # an option of the HTTP writer met by an FTP response
     return c
 
 
